@@ -43,6 +43,19 @@ CALCS = {
     ("activation", "Co"): [((27, 59, 0), "neutron_activation")],
     ("activation_iaea", "Co"): [((27, 59, 0), "neutron_activation")],
 }
+# calculators on the energy-dependent scattering-length tables (attached lazily by nsf.init) at scalar
+# wavelengths, some of them nearly equal: what is computed for one wavelength does not depend on which
+# wavelengths were asked for before
+WAVELENGTHS = [1.0, 1.0000004, 1.00003, 1.798, 1.7980000001, 0.5, 4.75]
+for _w in WAVELENGTHS:
+    CALCS[("neutron_sld_wl", ("Gd2O3", _w))] = [((64, 0, 0), "neutron"), ((8, 0, 0), "neutron")]
+    CALCS[("atom_scattering_wl", (64, 157, 0, _w))] = [((64, 157, 0), "neutron")]
+WL_CALCS = [c for c in CALCS if c[0].endswith("_wl")]
+
+# served values that are objects, and the module their class lives in (unpickling imports it)
+PICKLE_ATTRS = {"xray": "xsf", "neutron": "nsf", "magnetic_ff": "magnetic_ff", "neutron_activation": "activation",
+                "crystal_structure": None}
+PICKLE_KEYS = [(26, 0, 0), (26, 0, 2), (26, 56, 2), (1, 2, 0), (27, 59, 0), (1, 2, 1)]
 
 TABLES = ["public", "T1", "T2"]
 
@@ -116,7 +129,11 @@ class Lab:
         h = [("digest", "public", PROBES), ("kinds", "public", PROBES)] + \
             [("dictkeys", "public", k) for k in PROBES] + \
             [("has", "public", k, a) for k in PROBES for a in LAZY_ATTRS] + \
-            [("calc", c[0], list(c[1]) if isinstance(c[1], tuple) else c[1]) for c in CALCS]
+            [("calc", c[0], list(c[1]) if isinstance(c[1], tuple) else c[1]) for c in CALCS] + \
+            [("served", "public", k, a) for k in PICKLE_KEYS for a in PICKLE_ATTRS]
+        # (a calculator with a wavelength argument: its canonical value is that of a process that asks for
+        #  nothing else)
+        alone = self.pool.map([[("calc", c[0], list(c[1]))] for c in WL_CALCS])
         res = self.pool.map([h])[0]
         if isinstance(res, dict):
             raise InfraError("canonical child crashed: %s" % res.get("crash", res)[-400:])
@@ -143,6 +160,14 @@ class Lab:
         base += i
         for j, c in enumerate(CALCS):
             self.canon_calc[c] = tuple(res[base + j])
+        for c, r in zip(WL_CALCS, alone):
+            if isinstance(r, dict):
+                raise InfraError("canonical child crashed: %s" % str(r)[-400:])
+            self.canon_calc[c] = tuple(r[0])
+        base += len(CALCS)
+        self.canon_served = {}
+        for j, ka in enumerate((k, a) for k in PICKLE_KEYS for a in PICKLE_ATTRS):
+            self.canon_served[ka] = list(res[base + j])
         self.chain_text = {k: self._chain(k) for k in PROBES}
         self.key_of_chain = {v: k for k, v in self.chain_text.items()}
 
@@ -208,6 +233,12 @@ class Lab:
         if k == "digest":
             return [("read %d %s %d" % (self.t_id(ev[1]), self.chain_text[tuple(key)], self.attrs.index(a)),
                      ("read", tuple(key), a)) for key in ev[2] for a in LAZY_ATTRS]
+        if k in ("dumps", "served"):     # for the model a read of the attribute
+            return [("read %d %s %d" % (self.t_id(ev[1]), self.chain_text[tuple(ev[2])], self.attrs.index(ev[3])),
+                     ("read", tuple(ev[2]), ev[3]))]
+        if k == "loads":       # unpickling imports the module of the value's class; nothing else is touched
+            m = PICKLE_ATTRS.get(ev[3])
+            return [("import %d" % self.cfg["modules"].index(m), ("import", None, None))] if m in self.cfg["modules"] else []
         if k in ("newtable", "formula", "pickle", "ids"):
             return []      # no counterpart in the lazy model (judged by the oracle only)
         raise InfraError("no model line for %r" % (ev,))
@@ -376,8 +407,18 @@ def oracle(lab: Lab, hist, outs):
                         bad.append((i, "%s and %s serve the same object for %s.%s" % (T, ev[1], ka[0], ka[1]),
                                     dict(kind="shared-object", attr=ka[1])))
                         break
-        elif k in ("read", "has", "digest"):
+        elif k == "loads":
+            want = lab.canon_served.get((tuple(ev[2]), ev[3]))
+            if want is not None and list(out) != want:
+                what = "raises %s" % out[1] if out[0] == "exc" else \
+                    ("is another value (%s)" % out[1] if out[:2] != want[:2] else "computes other values (%s)" % out[2])
+                bad.append((i, "the pickled public %s.%s, loaded after this history, %s; the canonical order serves %s"
+                            % (tuple(ev[2]), ev[3], what, show(want)),
+                            dict(kind="pickled-value-differs", attr=ev[3], got=out[0] if out[0] != "val" else "value")))
+        elif k in ("read", "has", "digest", "dumps"):
             T = ev[1]
+            if k == "dumps":
+                out = out[:2]
             items = [(tuple(ev[2]), ev[3], out)] if k != "digest" else \
                 [(tuple(key), a, o) for (key, a), o in zip([(key, a) for key in ev[2] for a in LAZY_ATTRS], out[2])]
             for key, attr, o in items:
@@ -419,6 +460,12 @@ def compare(lab: Lab, hist, outs, replies):
         k = ev[0]
         if k in ("newtable", "formula", "pickle", "ids"):
             continue
+        if k == "loads":
+            if ml and reps[0] != "done":
+                return (i, "loads: model import %s" % reps[0])
+            continue
+        if k == "dumps":
+            out = out[:2]
         if k == "calc":
             arg = tuple(ev[2]) if isinstance(ev[2], list) else ev[2]
             # the model says every constituent read is canonical  <=>  the result is the canonical one
